@@ -90,7 +90,7 @@ def check_entry(text, ts, mode, k, span, scorer_spec, depth):
     fails = []
     try:
         got = [(list(X), y) for X, y in C.make_partial_rule_dataset(
-            [C.TimeParseEntry(text=text, ts=ts, gold=gold)], scorer=mk() or m._DEFAULT_SCORER, timeout=0,
+            [C.TimeParseEntry(text=text, ts=ts, gold=gold)], scorer=mk() or core.default_scorer(), timeout=0,
             max_stack_depth=depth)]
     except Exception as e:
         return [("builder-raises:" + type(e).__name__, repr(e))], (ncand, npos, goldv)
@@ -119,7 +119,7 @@ def check_batch(text, ts, modes_ks, scorer_spec, depth):
         e, _, _ = expected_samples(text, ts, gv, mk(), depth)
         exp += e
     try:
-        got = [(list(X), y) for X, y in C.make_partial_rule_dataset(entries, scorer=mk() or m._DEFAULT_SCORER, timeout=0,
+        got = [(list(X), y) for X, y in C.make_partial_rule_dataset(entries, scorer=mk() or core.default_scorer(), timeout=0,
                                                                      max_stack_depth=depth)]
     except Exception as e:
         return [("builder-raises:" + type(e).__name__, repr(e))], (len(cands), golds)
@@ -265,7 +265,7 @@ def check_dataset_entry(text, ts, gold, scorer_spec, depth):
     exp, ncand, npos = expected_samples(text, ts, goldv, mk(), depth)
     try:
         got = [(list(X), y) for X, y in C.make_partial_rule_dataset(
-            [C.TimeParseEntry(text=text, ts=ts, gold=gold)], scorer=mk() or m._DEFAULT_SCORER, timeout=0,
+            [C.TimeParseEntry(text=text, ts=ts, gold=gold)], scorer=mk() or core.default_scorer(), timeout=0,
             max_stack_depth=depth)]
     except Exception as e:
         return [("builder-raises:" + type(e).__name__, repr(e))], (ncand, npos, goldv)
